@@ -1,5 +1,6 @@
 (* Harness.v: dispatch from a decoded case (function name, arguments) to the model.
    Part of the correspondence harness. *)
+From Coq Require Import String.
 From CCT Require Import Prelude Hex Num Time Formats Json JsonParse Auth Signing Construct Sha256 Wire Keys Gpg Cli Ed25519 PySrc.
 From CCT.Gen Require Source.
 Open Scope N_scope.
@@ -251,6 +252,11 @@ Section Run.
         else if is (U"sign_via_gpg") then sign_via_gpg a b c (py_truth d)
         else if is (U"verify_signable") then unit_res (verify_signable ed_verify sha a b c d)
         else if is (U"verify_delegation") then unit_res (verify_delegation ed_verify sha a b c d)
+        (* the body of verify_delegation as translated on this run, interpreted; its external callee verify_signable answered by the model *)
+        else if is (U"src_verify_delegation") then
+          run_body (fun f args => if String.eqb f "verify_signable"%string
+                                  then match args with [s0; k0; t0; g0] => unit_res (verify_signable ed_verify sha s0 k0 t0 g0) | _ => Err TypeError end
+                                  else run_prog Source.program f args) Source.src_verify_delegation [a; b; c; d]
         else Unmodelled
     | [VInt n1; VInt n2; a; b; c; d; e] =>
         if is (U"build_delegating_metadata") then build_delegating_metadata n1 n2 a b c d e
